@@ -135,9 +135,17 @@ def thread_scenarios(tier):
                                              threads=[[sb('outer', [bf('d/a')])], [bf('d/a')]]),
         'T4_dup_subbuild_nested': dict(threads=[[sb('outer', [sb('s')])], [sb('s')]]),
         'T5_cached_duplicates': dict(prep=[sb('s')], threads=[[sb('s')], [sb('s')]]),
+        'T6_three_threads_same_file': dict(threads=[[bf('d/a')], [bf('d/a')], [bf('d/a')]]),
+        'T6b_three_threads_over_foreign_then_rollback': dict(t0=[['mkdir', 'd'], ['w', 'd/a', 'A']], raise_after=True,
+                                                            threads=[[bf('d/a')], [bf('d/a')], [bf('d/a')]]),
+        'T7_dup_below_build_file_in_reused_subtree': dict(prep=[sb('outer', [bf('d/a', ch=[sb('s')])])],
+                                                          threads=[[sb('outer', [bf('d/a', ch=[sb('s')])])], [sb('s')]]),
+        'T8_dup_file_below_build_file_in_reused_subtree': dict(
+            prep=[sb('outer', [bf('d/a', ch=[bf('d/b')])])], prep_mut=[['touch', 'd/b']],
+            threads=[[sb('outer', [bf('d/a', ch=[bf('d/b')])])], [bf('d/b')]]),
     }
     if tier != 'quick':
-        S['T6_three_threads_same_file'] = dict(threads=[[bf('d/a')], [bf('d/a')], [bf('d/a')]])
+        S['T9_three_threads_same_subbuild'] = dict(threads=[[sb('s')], [sb('s')], [sb('s')]])
     return S
 
 
@@ -162,8 +170,31 @@ def acceptable(o, seqs):
     if len(inv) != len(set(inv)):
         return False
     seq = [json.loads(k) for k in seqs]
-    if o.get('tree') not in [s['tree'] for s in seq]:
+    # a rejected call has no effect: the tree may lack what the rejected call would have built, but
+    # everything present must occur in a sequential tree and every output a successful call reports
+    # must be there; no empty directory may be left behind
+    allowed = {json.dumps(e) for s in seq for e in s['tree']}
+    tree = o.get('tree') or []
+    if any(json.dumps(e) not in allowed for e in tree):
         return False
+    present = {e[0] for e in tree}
+
+    def built(v, out):
+        if isinstance(v, list):
+            if len(v) == 3 and v[0] == 'bf' and isinstance(v[1], str):
+                out.add(v[1])
+            for x in v:
+                built(x, out)
+        return out
+    need = set()
+    for r in res:
+        if r[0] == 'ok':
+            built(r[1], need)
+    if not need <= present:
+        return False
+    for e in tree:
+        if e[1] == 'd' and not any(x[0].startswith(e[0] + '/') for x in tree):
+            return False
     if o.get('tree3') not in [s['tree3'] for s in seq] or o.get('clean') != 'ok':
         return False
     if isinstance(o.get('rebuild'), str) and o['rebuild'].startswith('EXC'):
@@ -191,7 +222,10 @@ def thread_work(ctx, task):
     completed = None
     capped = False
     line_execs = 0
-    for bound, line in [(x, False) for x in range(0, b + 1)] + [(1, True)]:     # last: line-granularity audit
+    passes = [(x, False) for x in range(0, b + 1)]
+    if len(sc['threads']) <= 2 or task['tier'] != 'quick':
+        passes.append((1, True))     # last: line-granularity audit
+    for bound, line in passes:
         ex = sched.Explorer(lambda p: R.run_concurrent(sc, p, line=line), bound, deadline=ctx.deadline)
         for s, o in ex:
             counters['executions'] += 1
